@@ -1,23 +1,49 @@
-"""C02 - unification computes a most general unifier, or fails."""
+"""C02 - unification computes a most general unifier, or fails.
+
+Two families of cases:
+ kind 'pair' (default): one pair of terms unified under a stack of 0-4 earlier, still suspended unifications; every
+               generator is created and started in the same step.
+ kind 'sched': "creation and start are different moments".  Several unify generators over shared variables; the call
+               unify(a, b) (which dereferences and dispatches), the first next (which runs the body: Variable.unify
+               dereferences again, unify_arrays dereferences its elements), later nexts, close() and dropping the object
+               are SEPARATE events, other generators being created / started / exhausted / closed in between.  The
+               started generators form a stack (LIFO, as nested generators do); creation happens at any time.
+               After EVERY event: did it yield, which variables are bound, what every variable dereferences to
+               (read with a cycle-safe walk over _is_bound/_value) - compared with the generator model
+               (Unify/UnifyGen.v through Unify/RunUnifySched.v) and, independently of the model, with a
+               reference unifier written here (oracle): the bindings must be a most general unifier of the
+               equations of the ACTIVE unifications (a variant of the reference's mgu), acyclic, and bind exactly
+               as many variables as the mgu does.
+"""
 import random
 from lib import terms
+from props import c02_sched as S
 from lib.terms import g_term, g_list, g_pair, g_nat
 
 ID = 'C02'
-IMPORTS = ['Unify.Unify', 'Unify.RunUnify']
-THEOREMS = ['C02_unify_sound', 'C02_unify_complete_mgu', 'C02_unify_most_general', 'C02_unify_fail_no_unifier', 'C02_unify_sym_ok', 'C02_unify_sym_fail', 'C02_unify_functor_arity', 'C02_unify_fuel_irrelevant', 'C02_unify_equivariant', 'C02_unify_increment', 'C02_unify_yields_at_most_once', 'C02_generator_is_unify']
+IMPORTS = ['Unify.Unify', 'Unify.RunUnify', 'Unify.RunUnifySched', 'Unify.SchedSpec']
+THEOREMS = ['C02_unify_sound', 'C02_unify_complete_mgu', 'C02_unify_most_general', 'C02_unify_fail_no_unifier', 'C02_unify_sym_ok', 'C02_unify_sym_fail', 'C02_unify_functor_arity', 'C02_unify_fuel_irrelevant', 'C02_unify_equivariant', 'C02_unify_increment', 'C02_unify_yields_at_most_once', 'C02_generator_is_unify',
+            'C02_late_start_is_unify', 'C02_late_start_mgu', 'C02_late_start_fail', 'C02_late_start_snapshot_mgu', 'C02_late_start_snapshot_fail',
+            'C02_late_start_sym', 'C02_late_drive_restores', 'C02_stack_mgu', 'C02_stack_fail_no_unifier', 'C02_run_events_is_generator_model',
+            'C02_sched_refines', 'C02_srun_mgu', 'C02_run_events_spec']
 RULE = ('ALL 576 pairs of terms of depth <= 2 over {a, b, X0, X1, f/1, g/2} exhaustively (thorough tier: also under 3 active bindings), plus '
         'random pairs of terms (depth <= 4, atoms/ints/strs/variables/compound/lists/partial lists; the second '
         'term is with probability 1/2 a mutation of the first so that most pairs nearly unify) under a stack of 0-4 '
         'earlier unifications that are still suspended; atoms come from two engine instances; each pair is also run '
         'swapped. Non-trivial: both sides compound or a variable chain of length >= 2 is involved, and the two sides '
-        'share a variable or a stacked binding is dereferenced. Distinct by hash of the case.')
+        'share a variable or a stacked binding is dereferenced. '
+        "kind 'sched' (creation and start are different moments): schedules of 2-5 unify generators over 2-5 shared variables "
+        '(variable-variable, variable-constant, variable-compound and compound-compound pairs), events create / next / close / drop, '
+        'started generators LIFO, creation at any time, plus ALL schedules "create g0, create g1, start them in either order" over a '
+        'fixed set of 10 small pairs on {X, Y} (thorough tier: all triples and orders). Non-trivial: some generator is started when the '
+        'bindings differ from those at its creation and it yields. Distinct by hash of the case.')
 TRUSTED_BASE = [
     'Coq 8.16.1 kernel (coqc); vm_compute for the in-Coq evaluation of the model on every case; no native_compute',
     'no axioms: all C02 theorems are closed under the global context',
     'hand-written model Unify/Unify.v of engine.py unify/unify_arrays/Variable.unify/Atom.unify/Functor.unify; tied to /repo by this differential run (not by translation)',
     'harness: generators, driver of the implementation (harness/props/c02.py), parser of the printed observations',
-    'modelled, not verified: CPython generator protocol (creation + first next of a unify generator = one model step)',
+    'modelled, not verified: CPython generator protocol (the call unify(..) = UnifyGen.mk_unify, __next__ = UnifyGen.next, close()/drop = UnifyGen.close)',
+    "reference unifier of the intrinsic oracle (harness/props/c02.py: _ref_unify, textbook algorithm with occurs check on JSON terms)",
 ]
 ASSUMPTIONS = ['cases whose solution needs a cyclic term (model result UCyc) are unspecified by the property: only required not to hang',
                'raw Python constants are ints and strs (bool/float equality quirks of == are outside the model)']
@@ -45,6 +71,8 @@ def gen(rng, tier):
             t1, t2 = t2, t1
         cases.append({'stack': stack, 't1': t1, 't2': t2, 'nvars': nv, 'engsalt': rng.randrange(4)})
     cases.extend(exhaustive_pairs(tier))
+    cases.extend(S.gen_case(rng) for _ in range(900 if tier == 'quick' else 10000))
+    cases.extend(S.exhaustive(tier))
     return cases
 
 def exhaustive_pairs(tier):
@@ -81,9 +109,11 @@ def builtin_corpus():
     c(terms.mklist([v(0), b]), terms.mklist([a], v(1)), 2)
     c(v(0), f('f', v(1)), 3, [(v(1), v(2))])   # binding value is dereferenced
     c(v(0), b, 3, [(v(0), v(1))])              # X=Y active, then X=b
-    return L
+    return L + S.corpus()
 
 def model_expr(case):
+    if case.get('kind') == 'sched':
+        return S.model_expr(case)
     stk = g_list([g_pair(g_term(a), g_term(b)) for a, b in case['stack']])
     return '(run_unify 200 %s %s %s %s)' % (stk, g_term(case['t1']), g_term(case['t2']), g_nat(case['nvars']))
 
@@ -144,6 +174,8 @@ def _drive(case, swap):
     return {'res': res, 'yields': yields, 'restored': after == before, 'final_unbound': final_unbound, 'extra': extra}
 
 def impl(case):
+    if case.get('kind') == 'sched':
+        return S.impl(case)
     try:
         d = _drive(case, False)
     except RecursionError:
@@ -157,6 +189,8 @@ def impl(case):
     return {'fwd': d, 'swapped': s}
 
 def compare(case, io, mo):
+    if case.get('kind') == 'sched':
+        return S.compare(case, io, mo)
     if mo[0] == 'oof':
         return 'model ran out of fuel (harness problem)'
     if mo[0] == 'cyc':
@@ -174,6 +208,8 @@ def compare(case, io, mo):
 def oracle(case, io):
     if not isinstance(io, dict):
         return None
+    if case.get('kind') == 'sched':
+        return S.oracle(case, io)
     f, s = io['fwd'], io['swapped']
     if f['yields'] > 1:
         return 'unify yielded more than once'
@@ -199,6 +235,8 @@ def oracle(case, io):
 def nontrivial(case, io):
     if not isinstance(io, dict):
         return False
+    if case.get('kind') == 'sched':
+        return S.nontrivial(case, io)
     t1, t2 = case['t1'], case['t2']
     both = t1[0] == 'f' and t2[0] == 'f'
     shared = set(terms.term_vars(t1)) & set(terms.term_vars(t2))
@@ -209,10 +247,15 @@ def nontrivial(case, io):
     return (both or len(case['stack']) >= 2) and bool(shared or touched)
 
 def describe(case):
+    if case.get('kind') == 'sched':
+        return S.describe(case)
     return {'stack': ['%s = %s' % (terms.show_term(a), terms.show_term(b)) for a, b in case['stack']],
             'goal': 'unify(%s, %s)' % (terms.show_term(case['t1']), terms.show_term(case['t2']))}
 
 def shrink(case):
+    if case.get('kind') == 'sched':
+        yield from S.shrink(case)
+        return
     for i in range(len(case['stack'])):
         c = dict(case); c['stack'] = case['stack'][:i] + case['stack'][i + 1:]
         yield c
@@ -230,8 +273,12 @@ def shrink(case):
 
 def distribution(cases, obs):
     d = {'ok': 0, 'fail': 0, 'cyc-or-deep': 0, 'stack-fails': 0, 'other': 0, 'stack_depth': {}, 'both_compound': 0,
-         'exhaustive_small_scope_pairs': sum(1 for c in cases if c.get('origin') == 'exhaustive')}
+         'exhaustive_small_scope_pairs': sum(1 for c in cases if c.get('origin') == 'exhaustive'),
+         'exhaustive_small_scope_schedules': sum(1 for c in cases if c.get('origin') == 'exhaustive-sched')}
+    d['sched'] = S.distribution(cases, obs)
     for c, o in zip(cases, obs):
+        if c.get('kind') == 'sched':
+            continue
         if isinstance(o, dict):
             d[o['fwd']['res'][0] if o['fwd']['res'][0] in ('ok', 'fail') else 'other'] += 1
         elif o == ['stack']:
